@@ -61,10 +61,13 @@ def run_case(rs, ctx):
     ops = []
     n_ops = int(rs.integers(4, 12))
     plan = ["fit"] + [gen.pick(rs, KINDS) for _ in range(n_ops)] + ["query"]
+    few_values = bool(rs.integers(2))
     replaced = False
     for step, k in enumerate(plan):
         if k in ("fit", "partial_fit"):
             op = gen.gen_ops(rs, cfgA, sh, 1, [k], train_rows=(4, 12) if k == "fit" else (1, 8))[0]
+            if few_values:
+                op["r"] = [float(int(v) % 5) for v in op["r"]]  # rating-like rewards: the same (decision, reward) pairs recur
             opB = dict(op, r=conv(binarizers.ALL[cur], op["d"], op["r"]))
         elif k in ("add_arm", "add_arm_b"):
             o = gen.gen_ops(rs, cfgA, sh, 1, ["add_arm"])
